@@ -91,7 +91,7 @@ def run(tier, replay=None):
     rr = rng("c18")
     rr.shuffle(lines)
     progs += [{"main.s": t} for t in flow] + [{"main.s": t} for t in lines[: (40 if tier == "quick" else 800)]]
-    for p in corpus.ORDER_PROGRAMS + corpus.VALUE_PROGRAMS:
+    for p in corpus.ORDER_PROGRAMS + corpus.VALUE_PROGRAMS + corpus.DUP_PROGRAMS:
         progs.append({"main.s": p})
     if replay:
         progs = [json.load(open(replay))["witness"]["files"]]
